@@ -25,81 +25,79 @@ use serde_json::{json, Value};
 use std::collections::BTreeSet;
 use std::panic::{catch_unwind, AssertUnwindSafe};
 
-fn tj<T: Serialize>(t: &T) -> Value {
+pub(crate) fn tj<T: Serialize>(t: &T) -> Value {
     serde_json::to_value(t).expect("to_value")
 }
-fn fj<T: DeserializeOwned>(v: &Value) -> T {
+pub(crate) fn fj<T: DeserializeOwned>(v: &Value) -> T {
     serde_json::from_str(&v.to_string()).expect("from_str")
 }
-fn rnd(rng: &mut ChaCha20Rng) -> Scalar {
+pub(crate) fn rnd(rng: &mut ChaCha20Rng) -> Scalar {
     let mut b = [0u8; 64];
     rng.fill(&mut b[..]);
     Scalar::from_bytes_wide(&b)
 }
-fn inv(s: Scalar) -> Scalar {
+pub(crate) fn inv(s: Scalar) -> Scalar {
     Option::<Scalar>::from(s.invert()).unwrap_or(Scalar::ZERO)
 }
 
 #[derive(Clone, Copy)]
-struct Sh1 {
-    pt: G1Projective,
-    dl: Scalar,
+pub(crate) struct Sh1 {
+    pub pt: G1Projective,
+    pub dl: Scalar,
 }
 impl Sh1 {
-    fn gen(k: Scalar) -> Self {
+    pub fn gen(k: Scalar) -> Self {
         Sh1 { pt: G1Projective::GENERATOR * k, dl: k }
     }
-    fn zero() -> Self {
+    pub fn zero() -> Self {
         Sh1 { pt: G1Projective::IDENTITY, dl: Scalar::ZERO }
     }
-    fn mul(&self, k: Scalar) -> Self {
+    pub fn mul(&self, k: Scalar) -> Self {
         Sh1 { pt: self.pt * k, dl: self.dl * k }
     }
-    fn add(&self, o: &Sh1) -> Self {
+    pub fn add(&self, o: &Sh1) -> Self {
         Sh1 { pt: self.pt + o.pt, dl: self.dl + o.dl }
     }
-    fn sub(&self, o: &Sh1) -> Self {
+    pub fn sub(&self, o: &Sh1) -> Self {
         Sh1 { pt: self.pt - o.pt, dl: self.dl - o.dl }
     }
 }
 #[derive(Clone, Copy)]
-struct Sh2 {
-    pt: G2Projective,
-    dl: Scalar,
+pub(crate) struct Sh2 {
+    pub pt: G2Projective,
+    pub dl: Scalar,
 }
 impl Sh2 {
-    fn gen(k: Scalar) -> Self {
+    pub fn gen(k: Scalar) -> Self {
         Sh2 { pt: G2Projective::GENERATOR * k, dl: k }
     }
-    fn mul(&self, k: Scalar) -> Self {
+    pub fn mul(&self, k: Scalar) -> Self {
         Sh2 { pt: self.pt * k, dl: self.dl * k }
     }
-    fn add(&self, o: &Sh2) -> Self {
+    pub fn add(&self, o: &Sh2) -> Self {
         Sh2 { pt: self.pt + o.pt, dl: self.dl + o.dl }
     }
 }
 
 /// suite-specific view of a key and a signature, in shadow form
 #[derive(Clone)]
-struct KeyView {
-    ps: bool,
-    x: Scalar,        // BBS: x (w = x*g2).  PS: x
-    w: Scalar,        // PS: w
-    y1: Vec<Sh1>,     // BBS message generators (pseudo-logs)
-    y2: Vec<Sh2>,     // PS message generators in G2 (true logs)
+pub(crate) struct KeyView {
+    pub ps: bool,
+    pub x: Scalar,        // BBS: x (w = x*g2).  PS: x
+    pub w: Scalar,        // PS: w
+    pub y1: Vec<Sh1>,     // BBS message generators (pseudo-logs)
+    pub y2: Vec<Sh2>,     // PS message generators in G2 (true logs)
 }
 #[derive(Clone)]
-struct SigView {
+pub(crate) struct SigView {
     // BBS: (A, e).  PS: (sigma_1, sigma_2, m_tick)
-    a: Sh1,
-    e: Scalar,
-    s2: Sh1,
-    m_tick: Scalar,
+    pub a: Sh1,
+    pub e: Scalar,
+    pub s2: Sh1,
+    pub m_tick: Scalar,
 }
 
-fn key_view<S: ShortGroupSignatureScheme>(issuer: &Issuer<S>, ipub: &IssuerPublic<S>, ps: bool, rng: &mut ChaCha20Rng) -> KeyView {
-    let sk = tj(&issuer.signing_key);
-    let pk = tj(&ipub.verifying_key);
+pub(crate) fn key_view_json(sk: &Value, pk: &Value, ps: bool, rng: &mut ChaCha20Rng) -> KeyView {
     if ps {
         let x: Scalar = fj(&sk["x"]);
         let w: Scalar = fj(&sk["w"]);
@@ -111,8 +109,11 @@ fn key_view<S: ShortGroupSignatureScheme>(issuer: &Issuer<S>, ipub: &IssuerPubli
         KeyView { ps, x, w: Scalar::ZERO, y1: ys.iter().map(|p| Sh1 { pt: *p, dl: rnd(rng) }).collect(), y2: vec![] }
     }
 }
+fn key_view<S: ShortGroupSignatureScheme>(issuer: &Issuer<S>, ipub: &IssuerPublic<S>, ps: bool, rng: &mut ChaCha20Rng) -> KeyView {
+    key_view_json(&tj(&issuer.signing_key), &tj(&ipub.verifying_key), ps, rng)
+}
 
-fn sig_view<S: ShortGroupSignatureScheme>(sig: &S::Signature, key: &KeyView, msgs: &[Scalar], rng: &mut ChaCha20Rng) -> SigView {
+pub(crate) fn sig_view<S: ShortGroupSignatureScheme>(sig: &S::Signature, key: &KeyView, msgs: &[Scalar], rng: &mut ChaCha20Rng) -> SigView {
     let v = tj(sig);
     if key.ps {
         let s1: G1Projective = fj(&v["sigma_1"]);
@@ -169,7 +170,7 @@ fn ctype_of(s: &str) -> ClaimType {
     }
 }
 
-fn hexs(s: &Scalar) -> Value {
+pub(crate) fn hexs(s: &Scalar) -> Value {
     json!(sc_hex(s))
 }
 
